@@ -82,7 +82,7 @@ def m2_accessor(run, project, L):
     result is bit (j + tz) of the value where the mask has that bit, 0 elsewhere (tz = trailing zeros of the mask) - for
     all values at once.  On the class (obj is None) the accessor gives cls(value=mask, name=name).  No idiom is matched:
     loops, closed forms, helpers and pre-computed shifts are all just evaluated."""
-    from ..minieval import Interp, Raised, SymVec, TypeRef
+    from ..minieval import Interp, NeedBit, Raised, SymVec, TypeRef
     mod = project.module(VALUES)
     f = mod.functions().get("tpm_bitfield.decorator.Bit.__get__")
     if f is None:
@@ -100,29 +100,50 @@ def m2_accessor(run, project, L):
             def cls(*a_, **kw):
                 made.append((a_, kw))
                 return ("instance-of-cls", len(made) - 1)
-            it = Interp({"cls": cls}, module_tree=mod.tree, max_steps=200000)
             selfobj = TypeRef("Bit", attrs={})
-            try:
-                if init is not None:
-                    it.call(init, [selfobj], {"name": name, "mask": mask})
-                else:
-                    selfobj.attrs.update(_name=name, _mask=mask)
-                got = it.call(f, [selfobj, TypeRef("register", attrs={"_value": SymVec.unknown(width)}), None])
-            except Raised as r:
-                got = f"raises {r.cls}"
             tz = (mask & -mask).bit_length() - 1
-            want = SymVec([("v", j + tz) if j + tz < width and (mask >> (j + tz)) & 1 else 0 for j in range(SymVec.WIDTH)])
+            leaves = []   # (assumed bits, result, required)
+
+            def case(assume):
+                """evaluate with the bits in `assume` fixed; where the code branches on a further bit, split on it"""
+                if len(leaves) > 4096:
+                    raise AnalysisError(f"M2: the accessor of {k}.{name} distinguishes more than 4096 classes of values")
+                vec = SymVec([assume.get(i, ("v", i)) if i < width else 0 for i in range(SymVec.WIDTH)])
+                want = SymVec([(assume.get(j + tz, ("v", j + tz)) if j + tz < width and (mask >> (j + tz)) & 1 else 0)
+                               for j in range(SymVec.WIDTH)])
+                it = Interp({"cls": cls}, module_tree=mod.tree, max_steps=200000)
+                selfobj.attrs.clear()
+                try:
+                    if init is not None:
+                        it.call(init, [selfobj], {"name": name, "mask": mask})
+                    else:
+                        selfobj.attrs.update(_name=name, _mask=mask)
+                    got = it.call(f, [selfobj, TypeRef("register", attrs={"_value": vec.concrete() if vec.concrete() is not None else vec}), None])
+                except NeedBit as nb:
+                    if nb.index is None or nb.index in assume:
+                        raise AnalysisError(f"M2: cannot split the evaluation of the accessor of {k}.{name}")
+                    case({**assume, nb.index: 0})
+                    case({**assume, nb.index: 1})
+                    return
+                except Raised as r:
+                    got = f"raises {r.cls}"
+                leaves.append((assume, got, want))
+            case({})
             n += 1
-            ok = got == want or (isinstance(got, int) and want.concrete() == got)
+            bad = [(a_, g_, w_) for a_, g_, w_ in leaves if not (g_ == w_ or (isinstance(g_, int) and not isinstance(g_, bool)
+                                                                          and w_.concrete() == g_))]
+            ok = not bad
             key = "instance"
             if ok or key not in bad_reported:
                 if not ok:
                     bad_reported.add(key)
-                run.ob("M2", ok, f"{k}.{name}: accessor gives the field's bits right-aligned",
-                       f"for mask {mask:#x} ({k}.{name}) the accessor gives {got!r} of a value v, required {want!r} = (v & mask) >> {tz}: "
+                a_, got, want = min(bad, key=lambda x_: len(x_[0])) if bad else ({}, None, None)
+                where = ("for values with " + ", ".join(f"bit {i} = {b_}" for i, b_ in sorted(a_.items()))) if a_ else "for a value v"
+                run.ob("M2", ok, f"{k}.{name}: accessor gives the field's bits right-aligned ({len(leaves)} value class(es))",
+                       f"for mask {mask:#x} ({k}.{name}) the accessor gives {got!r} {where}, required {want!r} = (v & mask) >> {tz}: "
                        "the field is not masked, or not shifted down by the mask's trailing zeros (e.g. by the position of its highest "
-                       "bit, so that multi-bit fields lose their low bits)", module=mod, node=f, func="Bit.__get__",
-                       construct="Bit.__get__ field value")
+                       "bit, or by an amount that depends on the field's content, so that fields lose or misplace their low bits)",
+                       module=mod, node=f, func="Bit.__get__", construct="Bit.__get__ field value")
             made.clear()
             try:
                 got = Interp({"cls": cls}, module_tree=mod.tree, max_steps=200000).call(f, [selfobj, None, None])
